@@ -96,6 +96,13 @@ class PathGen:
             elif isinstance(v, list):
                 w["key"] = w["key"] * 0.04
                 w["wc"] = w["wc"] * 0.04
+            elif isinstance(v, str) and v:
+                # a string is a sequence to Python and a scalar to JSON: index / slice / comma-list steps aimed at
+                # its characters must select nothing
+                for k in ("key", "wc", "gwc", "rec"):
+                    w[k] = w[k] * 0.05
+                for k in ("idx", "slice", "tuple", "iwc"):
+                    w[k] = w[k] * 0.5
             else:
                 # a scalar: only filters and parent steps can still select something
                 for k in ("key", "idx", "slice", "tuple", "wc", "iwc", "gwc", "rec"):
@@ -114,7 +121,7 @@ class PathGen:
             sel = [chain + [v[k]]] if isinstance(v, dict) and k in v else []
             return ["k", k], sel
         if kind == "idx":
-            if guided and isinstance(v, list) and v and rng.random() < 0.8:
+            if guided and isinstance(v, (list, str)) and v and rng.random() < 0.8:
                 i = rng.randrange(-len(v), len(v))
             else:
                 i = self.rint()
@@ -297,7 +304,18 @@ class PathGen:
         if r < 0.74:
             return ["not", self.gen_arg(chain, pdepth, False), self.gen_fns()]
         n = rng.choice([0, 1, 2, 2, 3])
-        return [rng.choice(["all", "any"]), [self.gen_arg(chain, pdepth) for _ in range(n)]]
+        args = [self.gen_arg(chain, pdepth) for _ in range(n)]
+        if rng.random() < 0.2:
+            # two arguments that *print* alike and mean different things: 1 vs "1", None vs "None", a key "a.b" vs a -> b
+            v = chain[-1] if chain is not None else None
+            key = rng.choice(list(v.keys())) if isinstance(v, dict) and v else rng.choice(KEYS)
+            a, b = rng.choice([(1, "1"), ("1", 1), (None, "None"), (True, "True"), ("0", 0), (2.5, "2.5")])
+            twin = [["c", [["k", key]], "eq", enc(a)], ["c", [["k", key]], "eq", enc(b)]]
+            if rng.random() < 0.3:
+                twin = [["p", [["k", key + ".x"]]], ["p", [["k", key], ["k", "x"]]]]
+            pos = rng.randint(0, len(args))
+            args = args[:pos] + twin + args[pos:]
+        return [rng.choice(["all", "any"]), args]
 
 
 def _named_descendants(chain):
